@@ -1500,14 +1500,24 @@ class Interp:
     def b_min(self, *a):
         vals = self.iter_values(a[0]) if len(a) == 1 else list(a)
         if any(is_sym(v) for v in vals):
-            raise Unsupported("min of symbolic")
+            return self._minmax(vals, False)
         return min(vals)
 
     def b_max(self, *a):
         vals = self.iter_values(a[0]) if len(a) == 1 else list(a)
         if any(is_sym(v) for v in vals):
-            raise Unsupported("max of symbolic")
+            return self._minmax(vals, True)
         return max(vals)
+
+    def _minmax(self, vals, want_max):
+        """min / max over symbolic integers (if-then-else chain)"""
+        if not vals or not all(self.is_intlike(v) for v in vals):
+            raise Unsupported("min/max of non-integers")
+        r = self.asint(vals[0])
+        for v in vals[1:]:
+            t = self.asint(v)
+            r = z3.If(t > r, t, r) if want_max else z3.If(t < r, t, r)
+        return SInt(r)
 
     def b_print(self, *a, **k):
         return None
@@ -1859,7 +1869,7 @@ class Interp:
             return o.segs.pop(idx)[1]
         if m == "copy":
             return OSeq(o.segs)
-        if m == "insert" and args and args[0] == 0 and not is_sym(args[0]):
+        if m == "insert" and args and not is_sym(args[0]) and args[0] == 0:
             o.segs.insert(0, ("i", args[1]))
             return None
         raise Unsupported("opaque sequence .%s" % m)
@@ -1872,12 +1882,18 @@ class Interp:
             pat, s = args[0], args[1]
             if is_sym(pat) or len(args) > 2 or kwargs:
                 raise Unsupported("re with symbolic pattern / flags")
-            rx = regex_to_z3(pat)
+            # anchors at the two ends of the whole pattern (strings never contain a newline here)
+            a_start = isinstance(pat, str) and pat.startswith("^")
+            a_end = isinstance(pat, str) and pat.endswith("$") and not pat.endswith("\\$")
+            core = pat[(1 if a_start else 0):(len(pat) - 1 if a_end else len(pat))]
+            if (a_start or a_end) and _top_level_alternation(core):
+                raise Unsupported("regex anchor inside alternation")
+            rx = regex_to_z3(core)
             anyc = z3.Star(z3.AllChar(z3.ReSort(smt.S)))
             if name == "re.match":
-                rx = z3.Concat(rx, anyc)
+                rx = rx if a_end else z3.Concat(rx, anyc)
             elif name == "re.search":
-                rx = z3.Concat(anyc, rx, anyc)
+                rx = z3.Concat(*([] if a_start else [anyc]) + [rx] + ([] if a_end else [anyc])) if not (a_start and a_end) else rx
             if isinstance(s, str):
                 import re as _re
                 return getattr(_re, name[3:])(pat, s) is not None
@@ -1887,6 +1903,27 @@ class Interp:
         if name == "json.dumps":
             return Opaque("json.dumps", args)
         raise Unsupported("external call %s" % name)
+
+
+def _top_level_alternation(pat):
+    depth, i, in_cls = 0, 0, False
+    while i < len(pat):
+        c = pat[i]
+        if c == "\\":
+            i += 2
+            continue
+        if in_cls:
+            in_cls = c != "]"
+        elif c == "[":
+            in_cls = True
+        elif c == "(":
+            depth += 1
+        elif c == ")":
+            depth -= 1
+        elif c == "|" and depth == 0:
+            return True
+        i += 1
+    return False
 
 
 class SplitLen:
